@@ -63,6 +63,7 @@ class _Fail:
         self.case = None
         self.violation = None
         self.error = None
+        self.history = []        # the last cases executed before (and including) the first failure, in order
 
 
 def _run_one(sc, case, tally, fail):
@@ -70,6 +71,10 @@ def _run_one(sc, case, tally, fail):
     tally.begin(case)
     if fail.error is not None:
         return
+    if not tally.frozen:
+        fail.history.append(case)
+        if len(fail.history) > 64:
+            del fail.history[0]
     try:
         if _CASELOG:
             before = dict(tally.classes)
@@ -132,6 +137,8 @@ def child_main(a):
         fail.error = f"HarnessError: {e}"
     except Exception as e:
         fail.error = "".join(traceback.format_exception(type(e), e, e.__traceback__))[-6000:]
+    if fail.error is None and fail.violation is not None and not a.no_confirm:
+        _confirm(a, fail)
     if fail.error is not None:
         out["error"] = fail.error
         if fail.case is not None:
@@ -151,6 +158,54 @@ def child_main(a):
     sys.stdout.flush()
     sys.stderr.flush()
     os._exit(0)        # skip atexit handlers: a leaked worker pool in the code under test must not be able to hang the child
+
+
+def _confirm(a, fail):
+    """Re-execute the failing case in a fresh process: alone, then as the last of the preceding cases of this child
+    (growing suffixes), so that a failure that needs earlier calls in the same process becomes a reproducible replay
+    instead of an unexplained flake."""
+    import tempfile
+    pid = a.property
+
+    def reproduces(case_enc):
+        fd, path = tempfile.mkstemp(prefix="confirm-", suffix=".json", dir=os.path.join(core.VERIF_HOME, ".work"))
+        with os.fdopen(fd, "w") as f:
+            json.dump({"property": pid, "sub_check": a.sub, "mode": a.mode, "case": case_enc}, f)
+        try:
+            rc = subprocess.call([sys.executable, "-W", "ignore", "-m", "harness.main", pid, "--replay", path, "--in-mode"],
+                                 stdout=subprocess.DEVNULL, stderr=subprocess.DEVNULL, cwd=core.VERIF_HOME, timeout=3600)
+        except subprocess.TimeoutExpired:
+            rc = -1
+        finally:
+            try:
+                os.unlink(path)
+            except OSError:
+                pass
+        return rc == 1
+    try:
+        single = enc(fail.case)
+    except Exception:
+        return
+    if reproduces(single):
+        return
+    hist = list(fail.history)
+    if not hist or digest(hist[-1]) != digest(fail.case):
+        hist.append(fail.case)
+    n = 2
+    while True:
+        seq = hist[-n:]
+        seq_case = {"__sequence__": [enc(c) for c in seq]}
+        if reproduces(seq_case):
+            fail.case = {"__sequence__": seq}
+            fail.violation = Violation(fail.violation.message + f" [needs the {len(seq) - 1} preceding call(s) in the same process: "
+                                       f"passes when executed alone in a fresh process]", **fail.violation.detail)
+            return
+        if n >= len(hist):
+            break
+        n = min(len(hist), n * 2)
+    fail.error = ("flaky: the case failed once but does not fail in a fresh process, neither alone nor after the "
+                  f"{len(hist) - 1} preceding cases; first message: {fail.violation.message}")
+    fail.violation = None
 
 
 def _hyp_settings(sc, a, n):
@@ -189,23 +244,9 @@ def _drive(test, sc, tally, fail):
         if fail.error is not None:
             return
         if fail.case is not None and fail.violation is not None:
-            # re-run the recorded failing case outside hypothesis: a reproducible failure is a violation,
-            # an unreproducible one is inconclusive (exit 2), never silently dropped
-            again = 0
-            for _ in range(3):
-                t2, f2 = Tally(), _Fail()
-                t2.open_keys = getattr(tally, "open_keys", set())
-                try:
-                    _run_one(sc, fail.case, t2, f2)
-                except Violation:
-                    again += 1
-                except Exception:
-                    pass
-            if again == 3:
-                return
-            fail.error = (f"flaky: a case failed once under hypothesis and then {3 - again}/3 re-executions passed; "
-                          f"first message: {fail.violation.message}")
-            fail.violation = None
+            # hypothesis could not reproduce the failure when it replayed the case: the confirmation step in child_main
+            # decides (fresh process, alone, then after the preceding cases)
+            fail.flaky = True
         else:
             fail.error = "hypothesis reported Flaky without a recorded failing case"
     except Exception as e:
@@ -532,6 +573,15 @@ def replay_main(a):
     tally = Tally()
     open_, _ = core.load_known_findings()
     tally.open_keys = set(open_.get(pid, {}).keys())
+    if isinstance(case, dict) and "__sequence__" in case:
+        seq = case["__sequence__"]
+        for c in seq[:-1]:          # the history: executed for its side effects on process state
+            tally.begin(c)
+            try:
+                sc.execute(c, tally)
+            except (Discard, Violation):
+                pass
+        case = seq[-1]
     tally.begin(case)
     try:
         sc.execute(case, tally)
@@ -566,6 +616,7 @@ def main(argv=None):
     ap.add_argument("--in-mode", action="store_true")
     ap.add_argument("--only", help="comma-separated sub-check names (development aid)")
     ap.add_argument("--no-evidence", action="store_true")
+    ap.add_argument("--no-confirm", action="store_true")
     a = ap.parse_args(argv)
     if a.seed is None:
         try:
